@@ -30,6 +30,7 @@
 #include <iostream>
 #include <vector>
 #include <algorithm>
+#include <functional>
 
 #include "constant.hh"
 #include "flag_saver.hh"
@@ -178,33 +179,34 @@ constant::operator< (constant that) const
   // We don't want to evaluate as equal two constants from different
   // domains just because they happen to have the same value.
 
-  auto const *dom1 = dom ();
-  auto const *dom2 = that.dom ();
-
   auto compare_magnitudes = [&] ()
     { return value () < that.value (); };
 
-  if (dom1 == dom2)
-    // Both domains are the same.  Possibly both are nullptr.
+  // Each constant belongs to a class of constants that are mutually
+  // comparable by value: all arithmetic domains form one class, and
+  // otherwise it's the most enclosing domain (some domains, such as
+  // arch-specific ELF symbol domains, share common sub-domains).
+  // Constants of different classes are ordered by their class.  Deciding
+  // that per pair of domains instead would not give a transitive order:
+  // e.g. decimal 1 < hex 3, but hex 3 < T_CONST < decimal 1 if that's
+  // how the three domains happen to be laid out in memory.
+  auto klass = [] (constant const &c) -> constant_dom const *
+    {
+      if (c.dom () == nullptr)
+	return nullptr;
+      if (c.dom ()->safe_arith ())
+	return &dec_constant_dom;
+      return c.dom ()->most_enclosing (c.value ());
+    };
+
+  auto const *klass1 = klass (*this);
+  auto const *klass2 = klass (that);
+
+  if (klass1 == klass2)
     return compare_magnitudes ();
-  if (dom1 == nullptr && dom2 != nullptr)
-    return true;
-  if (dom1 != nullptr && dom2 == nullptr)
-    return false;
 
-  if (// If both domains are arithmetic, we can directly compare the
-      // values.
-      (dom1->safe_arith () && dom2->safe_arith ())
-
-      // Maybe we can find a common sub-domain that covers them both.
-      // That has no effect for arithmetic domains, so we don't need
-      // to care if both are arithmetic or only one of them is.
-      || (dom1->most_enclosing (value ())
-	  == dom2->most_enclosing (that.value ())))
-    return compare_magnitudes ();
-
-  // Otherwise order the two constants by their domains.
-  return dom1 < dom2;
+  // N.B.: nullptr, if present, sorts first.
+  return std::less <constant_dom const *> {} (klass1, klass2);
 }
 
 bool
